@@ -42,6 +42,7 @@ type Exec struct {
 	wsCache    map[*ssa.Function]map[string]bool
 	globalByRef map[string]*ssa.Global
 	epochFrames map[int]*epochFrame
+	noFrameHeaps map[string]bool
 }
 
 type modLoc struct {
